@@ -184,7 +184,7 @@ ENGINE_OBJECTS = ["event", "context", "context['State']", "context['Execution']"
                   "self.task_dispatcher", "self.task_dispatcher.cancellers", "self.task_dispatcher.pending_requests"]
 
 # environment of the closures nested in StateEngine.notify (DESIGN 2.6): what notify has established
-NOTIFY_ENV = {"self": "obj", "event": "dict", "id": "any", "redelivered": "any", "context": "dict", "data": "json",
+NOTIFY_ENV = {"self": "obj", "event": "dict", "id": "str", "redelivered": "any", "context": "dict", "data": "json",
               "state": "dict", "state_type": "str", "state_machine": "dict", "ASL": "dict", "current_state": "str",
               "state_machine_type": "any", "execution_arn": "str", "ctx_state_machine": "dict",
               "state_machine_arn": "str", "current_state_machine": "dict", "state_path": "list"}
